@@ -1317,6 +1317,7 @@ pub fn run(args: &Args) -> i32 {
     ev.assume("sub 'wire': every client has its own source address and port, so both affinity modes give one flow per client (several ports of one address sharing a flow in IP-only mode is covered by sub 'manager'); cluster and listener are not reconfigured while datagrams flow; IPv4 loopback only");
     ev.assume("sub 'wire': a datagram missing at a backend is UDP, not a failure, unless more than 20% of the datagrams that had to be forwarded are missing; with max_flows 2..4 AND a requests/responses cap, which client is admitted depends on timing and the loss rule is not applied");
     ev.assume("sub 'wire': 'exactly once' teardown is observed through its consequences only (no datagram through an old upstream socket after the idle period, late backend datagrams reach no client, the worker's debug assertions stay silent)");
+    ev.assume("sub 'wire': two known shapes are left out by construction and counted in excluded_known (once per scenario each): the PROXY v2 destination address is accepted when it is the backend's own address (sozu's documented choice; the protocol and sozu's TCP send mode name the listener) - cases with `strict` demand the listener's address and fail with C19/ppv2-destination-not-listener; at the end of a scenario the listener is deactivated (flows closed) BEFORE its frontend is removed - cases with `unroute_live` remove the frontend first and fail with C19/worker-died:flows-closed-after-unroute (debug assertion lib/src/udp.rs:1631). Both reproducers are committed under regressions/C19/wire-known-*.json");
     for class in ["new_flow_then_established_in_one_burst", "established_then_new_in_one_burst", "idle_expiry_then_new_flow"] {
         ev.floor(super::c19_lab::SUB, class, 0.3);
     }
